@@ -89,7 +89,8 @@ End Spec.
 (* "the certificate of the entity": an entity built from a configuration that names a certificate
    file publishes the certificate that was installed at that path when the entity was built - the
    most recent installation before its creation, whatever the time stamps say and whatever is
-   installed there afterwards.  `before` = the steps already done, most recent first. *)
+   installed there afterwards; "its configuration" names the path the configuration object named at that
+   moment, whatever object it was copied from and wherever it (or its origin) pointed before or points later.  `before` = the steps already done, most recent first. *)
 Fixpoint last_install (p : nat) (before : list dstep) : option nat :=
   match before with
   | [] => None
@@ -97,14 +98,34 @@ Fixpoint last_install (p : nat) (before : list dstep) : option nat :=
   | _ :: r => last_install p r
   end.
 
+(* the configuration objects made so far (DConf with how <> 3 makes one; they are numbered in creation order) *)
+Fixpoint nconf (before : list dstep) : nat :=
+  match before with
+  | [] => 0
+  | DConf _ how _ :: r => if Nat.eqb how 3 then nconf r else S (nconf r)
+  | _ :: r => nconf r
+  end.
+
+(* the path configuration object c names now: where it was pointed last - when it was made (whatever it was
+   copied from), or when it was re-pointed afterwards *)
+Fixpoint conf_path (c : nat) (before : list dstep) : option nat :=
+  match before with
+  | [] => None
+  | DConf p how parent :: r =>
+      if Nat.eqb how 3
+      then (if Nat.eqb parent c then match conf_path c r with Some _ => Some p | None => None end else conf_path c r)
+      else (if Nat.eqb (nconf r) c then Some p else conf_path c r)
+  | _ :: r => conf_path c r
+  end.
+
+Definition cert_at (p : option nat) (before : list dstep) : option nat :=
+  match p with Some p => last_install p before | None => None end.
+
 Fixpoint certs_from (before : list dstep) (d : list dstep) : list nat :=
   match d with
   | [] => []
-  | DCreate p :: r =>
-      match last_install p before with
-      | Some k => k :: certs_from (DCreate p :: before) r
-      | None => certs_from (DCreate p :: before) r
-      end
+  | DCreate p :: r => ocons (last_install p before) (certs_from (DCreate p :: before) r)
+  | DBuild c :: r => ocons (cert_at (conf_path c before) before) (certs_from (DBuild c :: before) r)
   | s :: r => certs_from (s :: before) r
   end.
 
